@@ -797,6 +797,39 @@ fn main() {
             }
             println!("ok interior point scan line");
         }
+        "position_assembly" => {
+            use geo::coordinate_position::{CoordPos, CoordinatePosition};
+            use geo_types::{LineString, MultiLineString, MultiPolygon, Polygon};
+            let sq = |x0: i64, y0: i64, x1: i64, y1: i64| -> LineString<i64> { vec![(x0, y0), (x1, y0), (x1, y1), (x0, y1), (x0, y0)].into() };
+            // two holes touching in the point (6, 6)
+            let p = Polygon::new(sq(0, 0, 20, 20), vec![sq(2, 2, 6, 6), sq(6, 6, 10, 10)]);
+            for ((x, y), want) in [((4, 4), CoordPos::Outside), ((8, 8), CoordPos::Outside), ((6, 6), CoordPos::OnBoundary), ((2, 4), CoordPos::OnBoundary), ((8, 10), CoordPos::OnBoundary),
+                                   ((15, 15), CoordPos::Inside), ((4, 8), CoordPos::Inside), ((0, 7), CoordPos::OnBoundary), ((20, 20), CoordPos::OnBoundary), ((25, 5), CoordPos::Outside)] {
+                let got = p.coordinate_position(&c(x, y));
+                if got != want {
+                    fail(format!("polygon with two touching holes, query ({x}, {y}): {:?}, expected {:?}", got, want));
+                }
+            }
+            // members sharing a vertex / an end point
+            let mp = MultiPolygon(vec![Polygon::new(sq(0, 0, 4, 4), vec![]), Polygon::new(sq(4, 4, 8, 8), vec![]), Polygon::new(sq(4, -4, 8, 0), vec![])]);
+            for ((x, y), want) in [((4, 4), CoordPos::OnBoundary), ((4, 0), CoordPos::OnBoundary), ((2, 2), CoordPos::Inside), ((6, 6), CoordPos::Inside), ((6, 2), CoordPos::Outside), ((0, 2), CoordPos::OnBoundary)] {
+                let got = mp.coordinate_position(&c(x, y));
+                if got != want {
+                    fail(format!("multi-polygon of squares touching in vertices, query ({x}, {y}): {:?}, expected {:?}", got, want));
+                }
+            }
+            let seg = |x: i64, y: i64| -> LineString<i64> { vec![(1, 0), (x, y)].into() };
+            // (an EVEN number of ends meeting in the query is the listed finding of C02 - not asserted here)
+            for (n, want) in [(1usize, CoordPos::OnBoundary), (3, CoordPos::OnBoundary)] {
+                let all = [seg(0, 0), seg(2, 0), seg(1, 5), seg(1, -5)];
+                let m = MultiLineString(all[..n].to_vec());
+                let got = m.coordinate_position(&c(1, 0));
+                if got != want {
+                    fail(format!("{n} line strings ending in the query point: {:?}, expected {:?}", got, want));
+                }
+            }
+            println!("ok position assembly");
+        }
         _ => {
             eprintln!("unknown op {op}");
             std::process::exit(4);
